@@ -92,6 +92,11 @@ static void do_op(Cmd *c) {
     } else if (!strncmp(c->op, "it_", 3) && !is_op(c, "it_new")) {
         if (it_slot < 0) { o("st=- nosession"); o_sep(); o("-"); return; }
         if (is_op(c, "it_next")) { st = cc_queue_iter_next(&it, &out); o_out(st, out); }
+        else if (is_op(c, "it_sweep")) {   /* `it_sweep n=<k>`: k x iter_next, stops at the end: count + checksum of the values */
+            uint64_t cnt = kv_u64(c, "n", 1), got = 0, h = 0xcbf29ce484222325ULL; st = CC_OK;
+            for (uint64_t i = 0; i < cnt; i++) { st = cc_queue_iter_next(&it, &out); if (st != CC_OK) break; got++; h = (h ^ (uint64_t)VAL(out)) * 0x100000001b3ULL; }
+            o_stat(st); o(" out=%llu sum=%llu", (unsigned long long)got, (unsigned long long)h);
+        }
         else if (is_op(c, "it_replace")) { st = cc_queue_iter_replace(&it, PTR(a0), noout ? NULL : &out); if (noout) o_stat(st); else o_out(st, out); }
         else o("st=- badop");
     } else if (!Q[k]) { o("st=- nosession"); o_sep(); o("-"); return;
@@ -102,6 +107,11 @@ static void do_op(Cmd *c) {
         if (zit_a == k || zit_b == k) zit_a = zit_b = -1;
         o("st=- "); o_cb();
     } else if (is_op(c, "enqueue")) { st = cc_queue_enqueue(Q[k], PTR(a0)); o_stat(st);
+    } else if (is_op(c, "fill")) {
+        /* `fill n=<count> seed=<s>`: count x enqueue of (i * 7919 + s * 104729) % 1000003, i = 0.., stops at the first failure */
+        uint64_t cnt = kv_u64(c, "n", 0), sd = kv_u64(c, "seed", 1); st = CC_OK;
+        for (uint64_t i = 0; i < cnt && st == CC_OK; i++) st = cc_queue_enqueue(Q[k], PTR((i * 7919ULL + sd * 104729ULL) % 1000003ULL));
+        o_stat(st);
     } else if (is_op(c, "poll")) { st = cc_queue_poll(Q[k], noout ? NULL : &out); if (noout) o_stat(st); else o_out(st, out);
     } else if (is_op(c, "peek")) { st = cc_queue_peek(Q[k], &out); o_out(st, out);
     } else if (is_op(c, "size")) { o("st=- out=%zu", cc_queue_size(Q[k]));
